@@ -312,13 +312,13 @@ impl<R: Read> Reader<R> {
                 let checksum = read_hex_u32(&mut inner)?;
 
                 // NUL-terminated name with length `name_len` (including NUL byte).
-                let mut name_bytes = vec![0u8; name_len];
-                if name_bytes.len() > 4096 {
+                if name_len > 4096 {
                     return Err(io::Error::new(
                         io::ErrorKind::InvalidData,
                         "Entry name is too long",
                     ));
                 }
+                let mut name_bytes = vec![0u8; name_len];
                 inner.read_exact(&mut name_bytes)?;
                 if name_bytes.last() != Some(&0) {
                     return Err(io::Error::new(
